@@ -41,6 +41,7 @@ type c11sys struct {
 	do      func(remote string, hdr [][2]string) (int, bool)
 	trust   bool
 	trusted map[string]bool
+	decl    string
 }
 
 func (y *c11sys) identity(remote string, hdr [][2]string) string {
@@ -125,7 +126,35 @@ func c11build(s *sim.Sim, p *sim.Params) (*c11sys, func() *c11sys) {
 	y.unit, y.window = u.name, u.w
 	y.rate = float64(y.n) / float64(u.w)
 	interp := s.Choose(sim.SWork, 2) == 1
-	src := fmt.Sprintf("@ GET /limited {\n  + ratelimit(%d/%s)\n  > {marker: \"%s\"}\n}\n\n@ GET /free {\n  > {marker: \"free\"}\n}\n", y.n, u.name, c11Marker)
+	// the declaration is spelled the ways the language accepts: bare or quoted, any letter case,
+	// blanks around the unit — the declared limit is the same in all of them
+	mkSrc := func(decl string) string {
+		return fmt.Sprintf("@ GET /limited {\n  + ratelimit(%s)\n  > {marker: \"%s\"}\n}\n\n@ GET /free {\n  > {marker: \"free\"}\n}\n", decl, c11Marker)
+	}
+	capUnit := strings.ToUpper(u.name[:1]) + u.name[1:]
+	decl := fmt.Sprintf("%d/%s", y.n, u.name)
+	switch s.Choose(sim.SWork, 8) {
+	case 1:
+		decl = fmt.Sprintf("\"%d/%s\"", y.n, u.name)
+	case 2:
+		decl = fmt.Sprintf("\"%d/%s\"", y.n, capUnit)
+	case 3:
+		decl = fmt.Sprintf("\"%d/%s\"", y.n, strings.ToUpper(u.name))
+	case 4:
+		decl = fmt.Sprintf("\"%d/ %s \"", y.n, u.name)
+	case 5:
+		decl = fmt.Sprintf("%d/%s", y.n, capUnit)
+	}
+	src := mkSrc(decl)
+	if _, err := simBuildServer(src, interp); err != nil {
+		// a spelling the parser does not take: fall back to the plain one
+		s.Probe("declaration-spelling-not-accepted")
+		decl = fmt.Sprintf("%d/%s", y.n, u.name)
+		src = mkSrc(decl)
+	} else if decl != fmt.Sprintf("%d/%s", y.n, u.name) {
+		s.Probe("declaration-spelled-differently")
+	}
+	y.decl = decl
 	mk := func() *c11sys {
 		z := *y
 		sv, err := simBuildServer(src, interp)
@@ -259,7 +288,7 @@ func c11Run(s *sim.Sim, p *sim.Params) {
 	}
 	var recs []c11rec
 	var sample []string
-	sample = append(sample, fmt.Sprintf("limit %d/%s direct=%v trustProxy=%v trustedList=%v clients=%d", y.n, y.unit, y.direct, y.trust, len(y.trusted) > 0, nclients))
+	sample = append(sample, fmt.Sprintf("limit %d/%s (declared as ratelimit(%s)) direct=%v trustProxy=%v trustedList=%v clients=%d", y.n, y.unit, y.decl, y.direct, y.trust, len(y.trusted) > 0, nclients))
 	defer func() {
 		if len(sample) > 60 {
 			sample = append(sample[:60], fmt.Sprintf("... %d more", len(sample)-60))
@@ -331,6 +360,21 @@ func c11Run(s *sim.Sim, p *sim.Params) {
 				}
 			}
 		}
+	}
+	// "table pressure" runs: more one-shot clients than the limiter's table is meant to hold arrive
+	// first, so the workload runs against a table at capacity and its eviction path
+	pressure := func(y *c11sys) {
+		for k := 0; k < 10050; k++ {
+			st, _ := y.do(fmt.Sprintf("10.%d.%d.%d:5000", 100+(k>>16), (k>>8)&255, k&255), nil)
+			if st != 200 {
+				s.Fail("oracle", "false-rejection:unit="+y.unit, fmt.Sprintf("the first request ever of client #%d (of many one-shot clients) was answered %d", k, st))
+			}
+		}
+	}
+	pressureRun := s.Choose(sim.SWork, 25) == 0
+	if pressureRun {
+		s.Probe("limiter-table-pressure-run")
+		pressure(y)
 	}
 	var hs []*sim.Handle
 	for i := range plans {
@@ -441,7 +485,11 @@ func c11check(s *sim.Sim, y *c11sys, recs []c11rec, sample *[]string) {
 				cnt := j - i + 1
 				bound := float64(y.n) + y.rate*float64(adm[j]-adm[i])
 				if float64(cnt) > bound+1e-6 {
-					s.Fail("oracle", "admission-bound:unit="+y.unit, fmt.Sprintf("client %s was admitted %d requests in [%v,%v] (T=%v); limit %d/%s allows at most %.3f", id, cnt, adm[i], adm[j], adm[j]-adm[i], y.n, y.unit, bound))
+					site := "admission-bound:unit=" + y.unit
+					if c11beyondKnown(y, adm) {
+						site += ":beyond-known-conversion"
+					}
+					s.Fail("oracle", site, fmt.Sprintf("client %s was admitted %d requests in [%v,%v] (T=%v); limit %d/%s allows at most %.3f", id, cnt, adm[i], adm[j], adm[j]-adm[i], y.n, y.unit, bound))
 				}
 			}
 		}
@@ -473,4 +521,31 @@ func c11check(s *sim.Sim, y *c11sys, recs []c11rec, sample *[]string) {
 			}
 		}
 	}
+}
+
+// c11beyondKnown tells a violation of the admission bound for the units sec/hour/day that the
+// listed known finding (known_findings.json: the declared window is converted to a per-minute
+// budget b with burst b, b = 60N for sec, ceil(N/60) for hour, ceil(N/1440) for day) cannot
+// account for: some interval admits more than a bucket of b refilled at b per minute would. Such
+// a violation is a different one and is reported under its own signature.
+func c11beyondKnown(y *c11sys, adm []time.Duration) bool {
+	var b int
+	switch y.unit {
+	case "sec":
+		b = 60 * y.n
+	case "hour":
+		b = (y.n + 59) / 60
+	case "day":
+		b = (y.n + 1439) / 1440
+	default:
+		return false
+	}
+	for i := range adm {
+		for j := i; j < len(adm); j++ {
+			if float64(j-i+1) > float64(b)*(1+float64(adm[j]-adm[i])/float64(time.Minute))+1e-6 {
+				return true
+			}
+		}
+	}
+	return false
 }
